@@ -11,7 +11,7 @@ MODULES = {
     "C01": ["NSG.Properties.C01", "NSG.Properties.C01Barrier", "NSG.Properties.GenC01", "NSG.Properties.GenAtomic"],
     "C04": ["NSG.Properties.C04", "NSG.Properties.C04History"],
     "C05": ["NSG.Properties.C05"],
-    "C06": ["NSG.Properties.C06", "NSG.Properties.C01Barrier", "NSG.Properties.GenAtomic"],
+    "C06": ["NSG.Properties.C06", "NSG.Properties.C01Barrier", "NSG.Properties.C06Start", "NSG.Properties.GenAtomic"],
     "C07": ["NSG.Properties.C07", "NSG.Properties.C01Barrier", "NSG.Properties.GenAtomic"],
     "C09": ["NSG.Properties.C09", "NSG.Properties.GenC09"],
     "C10": ["NSG.Properties.C10", "NSG.Properties.GenC10", "NSG.Properties.GenAtomic"],
@@ -29,6 +29,12 @@ PROFILES = {
     "C16": {"burst": 0.25, "bad": 0.04, "leave": 0.04, "early_reset": 0.2},
     "C18": {"burst": 0.25, "bad": 0.03, "leave": 0.20, "extra_connect": 0.15},
 }
+# additional batches: (share of the session budget, profile)
+EXTRA = {
+    # detection is one of the three ways an episode ends: sessions with the global defender on, several episodes
+    "C04": [(0.5, {"bad": 0.01, "leave": 0.02, "outcome_mix": True, "force_env": {"use_global_defender": True},
+                   "attacker_max_steps": [6, 8, 10, 12], "roles": ["Attacker", "Attacker", "Defender"]})],
+}
 NONTRIVIAL = {
     "C01": ("parked_total", "a request parked at a barrier (start / end / reset) at a quiescent point"),
     "C04": ("final_observations", "a final (end=True) observation delivered"),
@@ -42,6 +48,38 @@ NONTRIVIAL = {
 }
 
 
+def _merge(a, b):
+    for k, v in b.items():
+        if isinstance(v, dict):
+            _merge(a.setdefault(k, {}), v)
+        elif isinstance(v, list):
+            a.setdefault(k, [])
+            a[k] += v
+        elif isinstance(v, (int, float)) and not isinstance(v, bool):
+            a[k] = a.get(k, 0) + v
+        else:
+            a.setdefault(k, v)
+
+
+def _worker(args):
+    """one worker of the thorough tier: its own driver, its own PRNG stream"""
+    prop, tables, wseed, n_sessions, n_events, profile, focus = args
+    from . import check_coord as CC2
+    fails, stats = [], ({"focus": focus} if focus else {})
+    rng = random.Random(wseed)
+    drv = Driver()
+    try:
+        if prop == "C04":
+            CC2.check_goal_function(drv, rng, lambda t, s_, d, r: fails.append((sorted(t), s_, d, r)), stats, 8000)
+        CC2.run_sessions(drv, rng, tables, lambda t, s_, d, r: fails.append((sorted(t), s_, d, r)), stats, n_sessions, n_events, profile)
+        for share, prof in EXTRA.get(prop, []):
+            CC2.run_sessions(drv, rng, tables, lambda t, s_, d, r: fails.append((sorted(t), s_, d, r)), stats, max(1, int(n_sessions * share)), n_events, prof)
+    finally:
+        drv.close()
+    stats.pop("focus", None)
+    return fails, stats
+
+
 def main(prop, tier):
     T = Timer()
     V = Verdict(prop)
@@ -49,7 +87,7 @@ def main(prop, tier):
     if not ok:
         for f in info["failures"]:
             V.proof_fail(f)
-    stats = {}
+    stats = {"focus": prop}
     other = {}
 
     def on_fail(tags, sig, desc, rep):
@@ -59,15 +97,28 @@ def main(prop, tier):
             for t in tags:
                 other[t] = other.get(t, 0) + 1
 
-    if info.get("build_ok") and info.get("tables"):
+    if info.get("build_ok") and info.get("tables") and tier != "quick":
+        # thorough: 12 worker processes, each with its own driver and PRNG stream
+        from concurrent.futures import ProcessPoolExecutor
+        workers = 12
+        base = 1000003 * seed() + int(prop[1:]) * 7 + 1
+        jobs = [(prop, info["tables"]["defender"], base * 131 + w, 500, 60, PROFILES[prop], prop) for w in range(workers)]
+        with ProcessPoolExecutor(max_workers=workers) as ex:
+            for fails, st in ex.map(_worker, jobs):
+                _merge(stats, st)
+                for tags, sig, desc, rep in fails:
+                    on_fail(set(tags), sig, desc, rep)
+    elif info.get("build_ok") and info.get("tables"):
         rng = random.Random(1000003 * seed() + int(prop[1:]) * 7 + 1)
         drv = Driver()
         try:
-            n_sessions = 150 if tier == "quick" else 1500
-            n_events = 45 if tier == "quick" else 60
+            n_sessions = 150
+            n_events = 45
             if prop == "C04":
-                CC.check_goal_function(drv, rng, on_fail, stats, 3000 if tier == "quick" else 60000)
+                CC.check_goal_function(drv, rng, on_fail, stats, 3000)
             CC.run_sessions(drv, rng, info["tables"]["defender"], on_fail, stats, n_sessions, n_events, PROFILES[prop])
+            for share, prof in EXTRA.get(prop, []):
+                CC.run_sessions(drv, rng, info["tables"]["defender"], on_fail, stats, max(1, int(n_sessions * share)), n_events, prof)
         finally:
             drv.close()
     bk = stats.get("by_kind", {})
@@ -85,6 +136,7 @@ def main(prop, tier):
            "rule": "random sessions of 1-4 connections (required players 1-4, role mixes, max_steps, reward tables, goals over all six view parts, defender on/off) against the real coordinator and the Lean model in lock-step; non-trivial = " + rule + " (counted per occurrence in distinct sessions/events)",
            "samples": stats.get("samples", [])[:2], "traces_validated_against_impl": stats.get("sessions", 0),
            "events_by_kind": bk, "parked_by_barrier": stats.get("parked", {}), "file_records_compared": stats.get("file_records", 0), "goal_check_cases": stats.get("goal_cases", 0), "goal_check_true": stats.get("goal_true", 0),
+           "sessions_full_scenario_random_start": stats.get("sessions_full_scenario_random_start", 0), "sessions_dynamic_addresses": stats.get("sessions_dynamic_addresses", 0), "bursts": stats.get("bursts", 0),
            "out_of_scope_disagreements": other, "proof_failures": V.proof_failures}
     write_evidence(prop, tier, "proof", cov, T.s(), nviol,
                    ["one read = one client message (TCP coalescing not modelled)", "a peer address is reused only after its earlier connection is closed",
